@@ -79,7 +79,7 @@ def gen_cases(ctx):
             filt = gen.gen_filter_spec(rng)
         yield {"kind": "solver", "instance": inst, "rule": rule,
                "chooser": rng.choice(["first", "random", "FIRST", "callable_last"]),
-               "filter": filt, "api": rng.choice(["solve", "solve_dispatcher", "call"]),
+               "filter": filt, "api": rng.choice(["solve", "solve_dispatcher", "call", "solve_partial"]),
                "seed": rng.randrange(2**31)}
     for i in range(ctx.scale(1500, 40000)):
         inst = gen.gen_instance(rng, None, max_jobs=rng.choice([2, 3, 4, 5]), max_machines=rng.choice([2, 3, 4]))
@@ -201,7 +201,7 @@ def run_solver_case(ctx, case):
             state["tracker"] = Tracker(inst, dispatcher)
         r = state["tracker"].r
         state["steps"] += 1
-        if state["steps"] > N + 1:
+        if state["steps"] > ref0.num_ops + 1:
             raise RuntimeError("step budget exceeded")
         if exact:
             avail = r.available(names)
@@ -294,6 +294,18 @@ def run_solver_case(ctx, case):
             S = solver.solve(instance)
         elif api == "solve_dispatcher":
             d = Dispatcher(instance, ready_operations_filter=solver.ready_operations_filter)
+            S = solver.solve(instance, d)
+        elif api == "solve_partial":
+            # the solver takes over a dispatcher that already holds a partial schedule
+            d = Dispatcher(instance, ready_operations_filter=solver.ready_operations_filter)
+            state["tracker"] = Tracker(inst, d)
+            pre = rng.randint(1, max(1, N - 1))
+            for _ in range(pre):
+                rr = state["tracker"].r
+                o = rng.choice(rr.ready())
+                d.dispatch(ops[o], rng.choice(rr.op_machines[o]))
+            N = N - pre
+            ctx.count("solver_took_over_partial_schedule")
             S = solver.solve(instance, d)
         else:
             S = solver(instance)
